@@ -32,13 +32,13 @@ def parse_model(text):
     return m
 
 
-def go_test_overlay(repo, pkg_dir, virtual_name, real_file, run, env_extra, timeout=120):
+def go_test_overlay(repo, pkg_dir, virtual_name, real_file, run, env_extra, timeout=120, tags=None):
     ov = {"Replace": {os.path.join(repo, pkg_dir, virtual_name): real_file}}
     with tempfile.NamedTemporaryFile("w", suffix=".json", delete=False, dir=os.environ.get("TMPDIR", "/var/tmp")) as f:
         json.dump(ov, f)
         ovp = f.name
     try:
-        cmd = ["go", "test", "-overlay", ovp, "-vet=off", "-count=1", "-timeout", "60s", "-run", run, "-v", "./" + pkg_dir + "/"]
+        cmd = ["go", "test"] + (["-tags", tags] if tags else []) + ["-overlay", ovp, "-vet=off", "-count=1", "-timeout", "60s", "-run", run, "-v", "./" + pkg_dir + "/"]
         r = subprocess.run(cmd, cwd=repo, env=dict(ENV, **env_extra), capture_output=True, text=True, timeout=timeout)
         return cmd, r.returncode, r.stdout + r.stderr
     finally:
@@ -81,7 +81,19 @@ _READ = ("internal/http", "zz_verif_replay_test.go", "replay/http_replay_test.go
 
 _TILE = ("internal/client", "zz_verif_replay_test.go", "replay/sumdbclient_replay_test.go", "TestVerifReplayTilePath", lambda m: {"Offset": int(m.get("offset", 1000)) if isinstance(m.get("offset", 1000), int) and 0 <= m.get("offset", 1000) < 2**62 else 1000})
 
+_SQL = ("internal/persistence/sql", "zz_verif_replay_test.go", "replay/sql_replay_test.go", "TestVerifReplaySQL", lambda m: {"any": True}, "verif")
+
+_IM = ("internal/persistence/inmemory", "zz_verif_replay_test.go", "replay/inmemory_replay_test.go", "TestVerifReplayInMemory", lambda m: {"any": True}, "verif")
+
 CONCRETISERS = {
+    "inmemory.inMemoryPersistence).expectAndWrite": _IM,
+    "inmemory.verifScenarioWrite": _IM,
+    "inmemory.verifScenarioRead": _IM,
+    "sql.verifScenarioWrite": _SQL,
+    "sql.verifScenarioRefuse": _SQL,
+    "sql.verifScenarioRead": _SQL,
+    "sql.sqlLogPersistence).Logs": _SQL,
+    "sql.getLatestCheckpoint": _SQL,
     "client.SumDBClient).tilePath": _TILE,
     "client.SumDBClient).TileData": _TILE,
     "client.SumDBClient).FullLeavesAtOffset": _TILE,
@@ -96,6 +108,7 @@ CONCRETISERS = {
     "feeder.submitToWitness$1": _FEED,
     "feeder.submitToWitness": _FEED,
     "feeder.FeedOnce": _FEED,
+    "witness.Proof).Marshal": ("internal/witness", "zz_verif_replay_test.go", "replay/proof_replay_test.go", "TestVerifReplayProof", lambda m: {"K": int(m.get("gk", 0)) if isinstance(m.get("gk", 0), int) else 0}),
     "witness.Proof).Unmarshal": ("internal/witness", "zz_verif_replay_test.go", "replay/proof_replay_test.go", "TestVerifReplayProof", lambda m: {"K": int(m.get("gk", 0))}),
     "bastion.parseBody": ("internal/feeder/bastion", "zz_verif_replay_test.go", "replay/parsebody_replay_test.go", "TestVerifReplayParseBody", lambda m: {"any": True}),
     "sumdb.FeedLog$1": ("internal/feeder/sumdb", "zz_verif_replay_test.go", "replay/sumdb_replay_test.go", "TestVerifReplaySumDB", sumdb_model),
@@ -116,9 +129,10 @@ def run_one(fn, model, repo, verif):
     c = find_concretiser(fn)
     if c is None:
         return None
-    pkg_dir, vname, real, run, conv = c
+    pkg_dir, vname, real, run, conv = c[:5]
+    tags = c[5] if len(c) > 5 else None
     gm = conv(model)
-    cmd, rc, out = go_test_overlay(repo, pkg_dir, vname, os.path.join(verif, real), run, {"VERIF_REPLAY_MODEL": json.dumps(gm)})
+    cmd, rc, out = go_test_overlay(repo, pkg_dir, vname, os.path.join(verif, real), run, {"VERIF_REPLAY_MODEL": json.dumps(gm)}, tags=tags)
     res = None
     for line in out.splitlines():
         if "REPLAY-RESULT " in line:
@@ -126,6 +140,11 @@ def run_one(fn, model, repo, verif):
                 res = json.loads(line.split("REPLAY-RESULT ", 1)[1])
             except Exception:
                 pass
+    if res is None and ("fatal error: concurrent map" in out or "WARNING: DATA RACE" in out):
+        # the Go runtime killed the test binary: unsynchronised access to a map on the real code
+        line = [l for l in out.splitlines() if "fatal error: concurrent map" in l or "DATA RACE" in l][0].strip()
+        why = "the Go runtime aborted the real code under concurrent use: " + line
+        res = {"realisable": True, "failed_clauses": {"C05.lock": why, "C05.cas": why}, "runtime_abort": line}
     return {"go_model": gm, "cmd": " ".join(cmd) + "   (env VERIF_REPLAY_MODEL=<go_model>)", "exit": rc, "result": res, "output_tail": out[-1500:]}
 
 
